@@ -15,7 +15,8 @@ RULE = ('same campaign as C01; the contract is compared after every call (None b
         'distinct = distinct (dealer, vul, accepted history, offered call).')
 REQUIRED_COUNTERS = {t: ['both_partners_named_denomination', 'declarer_is_not_last_bidder', 'both_sides_named_denomination',
                          'double_superseded', 'final_doubled', 'final_redoubled', 'passed_out'] for t in ('quick', 'thorough')}
-TRUSTED = []
+TRUSTED = ['the MiniPy semantics (Model/MiniPy.lean: value semantics, no aliasing) and the code translator (harness/translate_py.py), validated on every run by executing the translated program next to the real code (counters translated_*)',
+           ]
 ASSUMPTIONS = ['CPython list/dict semantics']
 
 
